@@ -211,7 +211,7 @@ func (p *c01) gen(seed uint64, idx int) *c01History {
 	}
 	for i := 0; i < n; i++ {
 		op := c01Op{Eng: r.Intn(h.nEng), CtxK: r.Intn(3)}
-		switch k := r.Intn(26); {
+		switch k := r.Intn(28); {
 		case k < 8:
 			op.Kind, op.Name = "render", entries[r.Intn(len(entries))]
 		case k < 10:
@@ -262,6 +262,11 @@ func (p *c01) gen(seed uint64, idx int) *c01History {
 			op.Kind, op.N = "gc", r.Range(1, 3)
 		case k < 24:
 			op.Kind, op.N = "otherActivity", r.Intn(4)
+		case k < 26:
+			// the timestamped document is loaded (and its template object also registered on another engine), then its
+			// modification time moves on and it is loaded again: the engine replaces its cached template; the template it
+			// handed out before stays whole
+			op.Kind, op.Name = "tsReload", "tsdoc"
 		default:
 			// a template object of this engine (a parsed handle, or the cached template of a name) is also registered on
 			// another engine under a name nothing uses: this engine's renders of it are none of that engine's business
@@ -312,8 +317,37 @@ func (h *c01History) state(k int) []*c01Engine {
 
 func c01Boom(args ...interface{}) (interface{}, error) { return nil, errSentinel }
 
+// c01TsLoader is a timestamp-aware in-memory loader with one document whose modification time the history moves forward
+// (its source stays what it is, so a reload changes nothing that a render can see)
+type c01TsLoader struct {
+	src   map[string]string
+	mtime map[string]int64
+}
+
+func (l *c01TsLoader) Load(name string) (string, error) {
+	if s, ok := l.src[name]; ok {
+		return s, nil
+	}
+	return "", fmt.Errorf("%w: %s", twig.ErrTemplateNotFound, name)
+}
+func (l *c01TsLoader) Exists(name string) bool { _, ok := l.src[name]; return ok }
+func (l *c01TsLoader) GetModifiedTime(name string) (int64, error) {
+	if t, ok := l.mtime[name]; ok {
+		return t, nil
+	}
+	return 0, fmt.Errorf("%w: %s", twig.ErrTemplateNotFound, name)
+}
+
+var c01TsLoaders = map[*twig.Engine]*c01TsLoader{}
+
 func c01NewEngine(st *c01Engine) (*twig.Engine, *twig.ArrayLoader) {
 	e := twig.New()
+	ts := &c01TsLoader{src: map[string]string{"tsdoc": "TS[{{ engineId }}|{% include 'part' %}|{{ 'q'|upper }}]"}, mtime: map[string]int64{"tsdoc": 100}}
+	c01TsLoaders[e] = ts
+	defer func() {
+		e.RegisterLoader(ts)
+		e.SetAutoReload(true)
+	}()
 	cp := map[string]string{}
 	for k, v := range st.srcs {
 		cp[k] = v
@@ -623,6 +657,25 @@ func (p *c01) Run(rec *core.Recorder, seed uint64, idx int, tier string) {
 					o.Msg = err.Error()
 				}
 				compare(k, o, false)
+			}
+		case "tsReload":
+			if ts := c01TsLoaders[e]; ts != nil && e.IsCacheEnabled() {
+				if t, err := e.Load("tsdoc"); err == nil && t != nil {
+					if h.nEng > 1 {
+						engines[(op.Eng+1)%h.nEng].RegisterTemplate(fmt.Sprintf("ts_alias_%d", k), t)
+					}
+					handles = append(handles, t) // the scan after the operation treats it as a template somebody still holds
+					held := twig.VerifFingerprint(t)
+					ts.mtime["tsdoc"]++
+					if _, err := e.Load("tsdoc"); err != nil {
+						rec.Violate("load", "load-failed", fmt.Sprintf("Load(tsdoc) failed after its modification time moved on: %v", err), caseInfo(k), "")
+					}
+					if now := twig.VerifFingerprint(t); now != held {
+						rec.Violate("fingerprint", "fingerprint-held:tsReload",
+							fmt.Sprintf("the template Load handed out before the reload was altered by the reload (operation %d); node tree differs from byte %d", k, firstDiff(held, now)), caseInfo(k), "")
+					}
+					rec.Count("reloads-of-a-held-template", 1)
+				}
 			}
 		case "shareTemplate":
 			var t *twig.Template
